@@ -350,6 +350,7 @@ func (en *Engine) VerifyFunc(fc *FuncContract) (res *FuncResult) {
 			g := fr.evalBool(post, e.E)
 			fr.oblige(rst, "ensures", clauseName(e, i), g, e, fn.Pos())
 		}
+		fr.oblige(rst, "cover", "return", False, nil, fn.Pos())
 		if fc.HasMod {
 			pre := map[string]Term{}
 			for hn, srt := range top.heapSorts {
